@@ -491,7 +491,7 @@ var shKindNames = []string{"listoffsets", "deleterecords", "offsetforleaderepoch
 
 func genShard(a hx.Args) {
 	r := hx.NewRng(a.Seed ^ 0xC23)
-	n := a.N(260, 4000)
+	n := a.N(400, 4000)
 	for i := 0; i < n; i++ {
 		k := shKindNames[i%len(shKindNames)]
 		kd := shKinds[k]
@@ -505,6 +505,8 @@ func genShard(a hx.Args) {
 			fault = hx.Pick(r, []string{"none", "err", "err", "move", "move", "shuffle"})
 		case "grp", "txn":
 			fault = hx.Pick(r, []string{"none", "err", "err", "rehash", "rehash"})
+		case "cfg", "rep":
+			fault = "none" // these sharders never retry on response codes (onResp returns nil)
 		default:
 			fault = hx.Pick(r, []string{"none", "err"})
 		}
@@ -591,7 +593,15 @@ func runShard(t *testing.T, tk []string) string {
 	unk, dup := hx.Pick(rng, []int{0, 0, 15, 35}), hx.Pick(rng, []int{0, 0, 20, 40})
 	pick := func() string {
 		switch kd.fam {
-		case "tp":
+		case "cfg":
+			if rng.Chance(40) {
+				return "T" + hx.Pick(rng, []string{"a", "b", "zz"})
+			}
+			if rng.Chance(unk) {
+				return "B9" // no such broker
+			}
+			return fmt.Sprintf("B%d", rng.Intn(brokers))
+		case "tp", "rep":
 			if rng.Chance(unk) {
 				if rng.Bool() {
 					return tp("zz", int32(rng.Intn(2))) // unknown topic
@@ -655,6 +665,30 @@ func runShard(t *testing.T, tk []string) string {
 			return strconv.Itoa(int(cluster.CoordinatorFor(it)))
 		case "anykey":
 			return "any"
+		case "cfg":
+			if it[0] == 'T' {
+				return "any"
+			}
+			if n, _ := strconv.Atoi(it[1:]); n < brokers {
+				return it[1:]
+			}
+			return "Eunknown-broker"
+		case "rep":
+			tn, p := tpSplit(it)
+			l := cluster.LeaderFor(tn, p)
+			if l < 0 {
+				return "E" + kerr.UnknownTopicOrPartition.Message
+			}
+			rf := cluster.TopicInfo(tn).NumReplicas
+			if rf > brokers {
+				rf = brokers
+			}
+			var rs []string
+			for i := 0; i < rf; i++ {
+				rs = append(rs, strconv.Itoa((int(l)+i)%brokers))
+			}
+			sort.Strings(rs)
+			return strings.Join(rs, "+")
 		}
 		return it[1:] // fan: b<i> -> i
 	}
@@ -796,7 +830,7 @@ func runShard(t *testing.T, tk []string) string {
 	arm := func() {
 		vmu.Lock()
 		userPhase = true
-		if fault != "none" {
+		if fault != "none" && kd.fail != nil {
 			armed = 1 + rng.Intn(2)
 		}
 		moved = false
@@ -830,6 +864,15 @@ func runShard(t *testing.T, tk []string) string {
 			dest = "E" + errName(s.Err)
 		} else if kd.fam == "anykey" {
 			dest = "any" // any broker, possibly a seed (negative node id)
+		}
+		if kd.fam == "cfg" && !strings.HasPrefix(dest, "E") {
+			allT := true
+			for _, it := range kd.reqIt(s.Req) {
+				allT = allT && it[0] == 'T'
+			}
+			if allT {
+				dest = "any"
+			}
 		}
 		its := kd.reqIt(s.Req)
 		if kd.fam == "fan" {
@@ -872,7 +915,7 @@ func runShard(t *testing.T, tk []string) string {
 	log.Add("Q")
 
 	g := "G:*"
-	if static {
+	if static && kd.fam != "rep" {
 		var ds []string
 		for d, its := range group {
 			sort.Strings(its)
@@ -909,4 +952,250 @@ func runShard(t *testing.T, tk []string) string {
 		hx.St.Inc("scen.shard.retried")
 	}
 	return g + " " + log.String()
+}
+
+// ---- further kinds: share-group offsets, config resources (broker-named resources go to that broker, others to any
+// broker), replica fan-outs (log dirs: one shard per replica), transaction markers, batched AddPartitionsToTxn.
+
+func cfgRes(it string) (kmsg.ConfigResourceType, string) {
+	if it[0] == 'B' {
+		return kmsg.ConfigResourceTypeBroker, it[1:]
+	}
+	return kmsg.ConfigResourceTypeTopic, it[1:]
+}
+func cfgItem(t kmsg.ConfigResourceType, name string) string {
+	if t == kmsg.ConfigResourceTypeBroker {
+		return "B" + name
+	}
+	return "T" + name
+}
+
+func init() {
+	regKind(&shKind{name: "describesharegroupoffsets", key: 90, fam: "grp",
+		build: func(items []string) kmsg.Request {
+			req := kmsg.NewPtrDescribeShareGroupOffsetsRequest()
+			for _, g := range items {
+				rg := kmsg.NewDescribeShareGroupOffsetsRequestGroup()
+				rg.GroupID = g
+				gt := kmsg.NewDescribeShareGroupOffsetsRequestGroupTopic()
+				gt.Topic = "a"
+				gt.Partitions = []int32{0}
+				rg.Topics = append(rg.Topics, gt)
+				req.Groups = append(req.Groups, rg)
+			}
+			return req
+		},
+		reqIt: func(r kmsg.Request) (o []string) {
+			for _, g := range r.(*kmsg.DescribeShareGroupOffsetsRequest).Groups {
+				o = append(o, g.GroupID)
+			}
+			return
+		},
+		respIt: func(r kmsg.Response) (o []string) {
+			for _, g := range r.(*kmsg.DescribeShareGroupOffsetsResponse).Groups {
+				o = append(o, ic(g.GroupID, g.ErrorCode))
+			}
+			return
+		},
+		fail: func(r kmsg.Request, code int16) kmsg.Response {
+			req := r.(*kmsg.DescribeShareGroupOffsetsRequest)
+			resp := req.ResponseKind().(*kmsg.DescribeShareGroupOffsetsResponse)
+			for _, g := range req.Groups {
+				sg := kmsg.NewDescribeShareGroupOffsetsResponseGroup()
+				sg.GroupID, sg.ErrorCode = g.GroupID, code
+				resp.Groups = append(resp.Groups, sg)
+			}
+			return resp
+		}})
+	regKind(&shKind{name: "describeconfigs", key: 32, fam: "cfg",
+		build: func(items []string) kmsg.Request {
+			req := kmsg.NewPtrDescribeConfigsRequest()
+			for _, it := range items {
+				rr := kmsg.NewDescribeConfigsRequestResource()
+				rr.ResourceType, rr.ResourceName = cfgRes(it)
+				req.Resources = append(req.Resources, rr)
+			}
+			return req
+		},
+		reqIt: func(r kmsg.Request) (o []string) {
+			for _, rr := range r.(*kmsg.DescribeConfigsRequest).Resources {
+				o = append(o, cfgItem(rr.ResourceType, rr.ResourceName))
+			}
+			return
+		},
+		respIt: func(r kmsg.Response) (o []string) {
+			for _, rr := range r.(*kmsg.DescribeConfigsResponse).Resources {
+				o = append(o, ic(cfgItem(rr.ResourceType, rr.ResourceName), rr.ErrorCode))
+			}
+			return
+		}})
+	regKind(&shKind{name: "alterconfigs", key: 33, fam: "cfg",
+		build: func(items []string) kmsg.Request {
+			req := kmsg.NewPtrAlterConfigsRequest()
+			req.ValidateOnly = true
+			for _, it := range items {
+				rr := kmsg.NewAlterConfigsRequestResource()
+				rr.ResourceType, rr.ResourceName = cfgRes(it)
+				req.Resources = append(req.Resources, rr)
+			}
+			return req
+		},
+		reqIt: func(r kmsg.Request) (o []string) {
+			for _, rr := range r.(*kmsg.AlterConfigsRequest).Resources {
+				o = append(o, cfgItem(rr.ResourceType, rr.ResourceName))
+			}
+			return
+		},
+		respIt: func(r kmsg.Response) (o []string) {
+			for _, rr := range r.(*kmsg.AlterConfigsResponse).Resources {
+				o = append(o, ic(cfgItem(rr.ResourceType, rr.ResourceName), rr.ErrorCode))
+			}
+			return
+		}})
+	regKind(&shKind{name: "incrementalalterconfigs", key: 44, fam: "cfg",
+		build: func(items []string) kmsg.Request {
+			req := kmsg.NewPtrIncrementalAlterConfigsRequest()
+			req.ValidateOnly = true
+			for _, it := range items {
+				rr := kmsg.NewIncrementalAlterConfigsRequestResource()
+				rr.ResourceType, rr.ResourceName = cfgRes(it)
+				req.Resources = append(req.Resources, rr)
+			}
+			return req
+		},
+		reqIt: func(r kmsg.Request) (o []string) {
+			for _, rr := range r.(*kmsg.IncrementalAlterConfigsRequest).Resources {
+				o = append(o, cfgItem(rr.ResourceType, rr.ResourceName))
+			}
+			return
+		},
+		respIt: func(r kmsg.Response) (o []string) {
+			for _, rr := range r.(*kmsg.IncrementalAlterConfigsResponse).Resources {
+				o = append(o, ic(cfgItem(rr.ResourceType, rr.ResourceName), rr.ErrorCode))
+			}
+			return
+		}})
+	regKind(&shKind{name: "describelogdirs", key: 35, fam: "rep",
+		build: func(items []string) kmsg.Request {
+			req := kmsg.NewPtrDescribeLogDirsRequest()
+			ts, ps := tpRuns(items)
+			for i, t := range ts {
+				rt := kmsg.NewDescribeLogDirsRequestTopic()
+				rt.Topic = t
+				rt.Partitions = ps[i]
+				req.Topics = append(req.Topics, rt)
+			}
+			return req
+		},
+		reqIt: func(r kmsg.Request) (o []string) {
+			for _, t := range r.(*kmsg.DescribeLogDirsRequest).Topics {
+				for _, p := range t.Partitions {
+					o = append(o, tp(t.Topic, p))
+				}
+			}
+			return
+		},
+		respIt: func(r kmsg.Response) (o []string) {
+			for _, d := range r.(*kmsg.DescribeLogDirsResponse).Dirs {
+				for _, t := range d.Topics {
+					for _, p := range t.Partitions {
+						o = append(o, ic(tp(t.Topic, p.Partition), d.ErrorCode))
+					}
+				}
+			}
+			return
+		}})
+	regKind(&shKind{name: "alterreplicalogdirs", key: 34, fam: "rep",
+		build: func(items []string) kmsg.Request {
+			req := kmsg.NewPtrAlterReplicaLogDirsRequest()
+			rd := kmsg.NewAlterReplicaLogDirsRequestDir()
+			rd.Dir = "/mem/kfake"
+			ts, ps := tpRuns(items)
+			for i, t := range ts {
+				rt := kmsg.NewAlterReplicaLogDirsRequestDirTopic()
+				rt.Topic = t
+				rt.Partitions = ps[i]
+				rd.Topics = append(rd.Topics, rt)
+			}
+			req.Dirs = append(req.Dirs, rd)
+			return req
+		},
+		reqIt: func(r kmsg.Request) (o []string) {
+			for _, d := range r.(*kmsg.AlterReplicaLogDirsRequest).Dirs {
+				for _, t := range d.Topics {
+					for _, p := range t.Partitions {
+						o = append(o, tp(t.Topic, p))
+					}
+				}
+			}
+			return
+		},
+		respIt: func(r kmsg.Response) (o []string) {
+			for _, t := range r.(*kmsg.AlterReplicaLogDirsResponse).Topics {
+				for _, p := range t.Partitions {
+					o = append(o, ic(tp(t.Topic, p.Partition), p.ErrorCode))
+				}
+			}
+			return
+		}})
+	regKind(&shKind{name: "writetxnmarkers", key: 27, fam: "tp",
+		build: func(items []string) kmsg.Request {
+			req := kmsg.NewPtrWriteTxnMarkersRequest()
+			rm := kmsg.NewWriteTxnMarkersRequestMarker()
+			rm.ProducerID, rm.ProducerEpoch, rm.Committed = 4242, 0, false
+			ts, ps := tpRuns(items)
+			for i, t := range ts {
+				rt := kmsg.NewWriteTxnMarkersRequestMarkerTopic()
+				rt.Topic = t
+				rt.Partitions = ps[i]
+				rm.Topics = append(rm.Topics, rt)
+			}
+			req.Markers = append(req.Markers, rm)
+			return req
+		},
+		reqIt: func(r kmsg.Request) (o []string) {
+			for _, m := range r.(*kmsg.WriteTxnMarkersRequest).Markers {
+				for _, t := range m.Topics {
+					for _, p := range t.Partitions {
+						o = append(o, tp(t.Topic, p))
+					}
+				}
+			}
+			return
+		},
+		respIt: func(r kmsg.Response) (o []string) {
+			for _, m := range r.(*kmsg.WriteTxnMarkersResponse).Markers {
+				for _, t := range m.Topics {
+					for _, p := range t.Partitions {
+						o = append(o, ic(tp(t.Topic, p.Partition), p.ErrorCode))
+					}
+				}
+			}
+			return
+		},
+		fail: func(r kmsg.Request, code int16) kmsg.Response {
+			req := r.(*kmsg.WriteTxnMarkersRequest)
+			resp := req.ResponseKind().(*kmsg.WriteTxnMarkersResponse)
+			for _, m := range req.Markers {
+				sm := kmsg.NewWriteTxnMarkersResponseMarker()
+				sm.ProducerID = m.ProducerID
+				for _, t := range m.Topics {
+					st := kmsg.NewWriteTxnMarkersResponseMarkerTopic()
+					st.Topic = t.Topic
+					for _, p := range t.Partitions {
+						sp := kmsg.NewWriteTxnMarkersResponseMarkerTopicPartition()
+						sp.Partition, sp.ErrorCode = p, code
+						st.Partitions = append(st.Partitions, sp)
+					}
+					sm.Topics = append(sm.Topics, st)
+				}
+				resp.Markers = append(resp.Markers, sm)
+			}
+			return resp
+		}})
+	// AddPartitionsToTxn (batched, v4+) is not driven: kfake's handler only looks at the legacy top-level transaction of the
+	// request, so a batch of several transactions gets an answer for one of them only (tried: the shards were right, the
+	// responses were not usable as an oracle).
+	shKindNames = append(shKindNames, "describesharegroupoffsets", "describeconfigs", "alterconfigs", "incrementalalterconfigs",
+		"describelogdirs", "alterreplicalogdirs", "writetxnmarkers")
 }
